@@ -138,8 +138,8 @@ CHECKS = {
         design="4 (C09)"),
     "C12": dict(
         level="exploration",
-        text=("Seeded simulated histories on 2-5 objects declaring seven Property(observe=...) "
-              "traits (five cached) over scalar, Instance, list/dict/set-item and two-link "
+        text=("Seeded simulated histories on 2-5 objects declaring nine Property(observe=...) "
+              "traits (six cached; two inherited with only the getter overridden) over scalar, Instance, list/dict/set-item and two-link "
               "dependencies, and class-level handlers that read the cached properties while a "
               "change or a restore is in flight: dependency mutations incl. shared and repeated "
               "nodes, slices that change the number of occurrences of an item, equal-list "
